@@ -45,6 +45,9 @@ class SimThread(object):
         self.prio = 0
         self.thread = None
         self.ready = threading.Event()
+        self.deadline = None        # simulated time at which a timed wait ends
+        self.timed_out = False
+        self.stalled_until = None   # simulated time until which it is stalled
 
 
 # ------------------------------------------------------------ strategies ---
@@ -144,6 +147,14 @@ class Scheduler(object):
         self.on_step = None     # invariant hook, called at every yield point
         self.blocked_graph = None
         self.switch_sites = []  # library call stack at each pre-emption
+        # simulated clock: advances only when nothing is runnable, to the
+        # earliest timer (end of a timed wait, end of a stall)
+        self.now = 0.0
+        self.timer_fires = 0
+        self.stalls_done = 0
+        self.stall_map = {(a, b): d for a, b, d in
+                          (sched_cfg.get("stalls") or [])}
+        self.main_tid = sched_cfg.get("main_tid")
 
     # -- construction
     def spawn(self, fn):
@@ -153,6 +164,29 @@ class Scheduler(object):
 
     def me(self):
         return self.by_ident.get(threading.get_ident())
+
+    def _enabled(self):
+        """Runnable threads; when there is none, the clock jumps to the
+        earliest pending timer and its thread becomes runnable."""
+        en = [x for x in self.threads if x.state == "enabled"]
+        if en:
+            return en
+        timers = [(x.deadline, x.tid, x) for x in self.threads
+                  if x.state == "blocked" and x.deadline is not None]
+        timers += [(x.stalled_until, x.tid, x) for x in self.threads
+                   if x.state == "stalled"]
+        if not timers:
+            return []
+        when, _tid, x = min(timers, key=lambda q: (q[0], q[1]))
+        self.now = max(self.now, when)
+        if x.state == "stalled":
+            x.stalled_until = None
+        else:
+            x.timed_out = True
+            x.deadline = None
+            self.timer_fires += 1
+        x.state = "enabled"
+        return [x]
 
     # -- running
     def run(self, wall_timeout=120):
@@ -209,7 +243,7 @@ class Scheduler(object):
             if self.abort_reason:
                 return
             t.steps += 1
-            enabled = [x for x in self.threads if x.state == "enabled"]
+            enabled = self._enabled()
             if not enabled:
                 self._deadlock()
                 return
@@ -266,8 +300,18 @@ class Scheduler(object):
             t.interrupt_at = None
             t.interrupted += 1
             raise SimInterrupt()
-        enabled = [x for x in self.threads if x.state == "enabled"]
-        nxt = self.strategy.choose(self, t, enabled, False)
+        dur = self.stall_map.get((t.tid, t.steps)) if self.stall_map else None
+        if dur is not None:
+            # fault: this thread stalls for `dur` simulated seconds (others
+            # run on; the clock only moves when nobody else can)
+            t.state = "stalled"
+            t.stalled_until = self.now + dur
+            self.stalls_done += 1
+            enabled = self._enabled()
+            nxt = self.strategy.choose(self, t, enabled, True)
+        else:
+            enabled = [x for x in self.threads if x.state == "enabled"]
+            nxt = self.strategy.choose(self, t, enabled, False)
         if nxt is not t:
             self.preemptions += 1
             self.trace.append([t.tid, t.steps, nxt.tid])
@@ -282,21 +326,29 @@ class Scheduler(object):
         if self.abort_reason:
             raise SimAbort()
 
-    def block(self, t, on):
-        """Called by the running thread when it cannot proceed."""
+    def block(self, t, on, deadline=None):
+        """Called by the running thread when it cannot proceed.  With a
+        deadline (simulated time) the wait may end by time-out: returns True
+        in that case."""
         t.state = "blocked"
         t.blocked_on = on
+        t.deadline = deadline
+        t.timed_out = False
         t.steps += 1
-        enabled = [x for x in self.threads if x.state == "enabled"]
+        enabled = self._enabled()
         if not enabled:
             with self.fin_lock:
                 self._deadlock()
             t.state = "enabled"
             raise SimAbort()
         nxt = self.strategy.choose(self, t, enabled, True)
-        self.trace.append([t.tid, t.steps, nxt.tid])
-        self._switch(t, nxt)
+        if nxt is not t:
+            self.trace.append([t.tid, t.steps, nxt.tid])
+            self._switch(t, nxt)
         t.blocked_on = None
+        t.deadline = None
+        out, t.timed_out = t.timed_out, False
+        return out
 
     def event(self, tag):
         t = self.by_ident.get(threading.get_ident())
@@ -373,11 +425,18 @@ class SimLock(object):
             return True
         s.events.append((t.tid, "acq:" + self.name))
         s.yield_point("lock")
+        deadline = s.now + timeout if timeout is not None and timeout >= 0 \
+            else None
         while self.held:
             if not blocking:
                 return False
+            if deadline is not None and s.now >= deadline:
+                s.events.append((t.tid, "timeout:" + self.name))
+                return False
             self.waiters.append(t)
-            s.block(t, self)
+            if s.block(t, self, deadline):
+                if t in self.waiters:
+                    self.waiters.remove(t)
         self.held = True
         self.owner = t
         t.held_locks += 1
@@ -637,6 +696,15 @@ class ThreadingShim(object):
     BoundedSemaphore = staticmethod(lambda value=1: SimSemaphore(value))
     Condition = staticmethod(lambda lock=None: SimCondition(lock))
     Event = staticmethod(lambda: SimEvent())
+
+    def main_thread(self):
+        # a run may declare one of its simulated threads to be the program's
+        # main thread (code may treat the main thread specially)
+        s = _active
+        if s is not None and s.main_tid is not None and \
+                s.main_tid < len(s.threads):
+            return s.threads[s.main_tid].thread
+        return self._real.main_thread()
 
     def __getattr__(self, name):
         return getattr(self._real, name)
